@@ -516,3 +516,49 @@ class MergerFamily(Family):
         return n >= 2
 
 FAMILIES["merger"] = MergerFamily
+
+
+class SorterFamily(Family):
+    name = "sorter"
+    def cases(self, pid, seed, tier, mult, stats):
+        for c in self.corpus(pid):
+            yield c
+        for i in range(budget(tier, 200, 3000, mult)):
+            rng = Rng(seed * 3000017 + i * 11)
+            yield ("sorter:%d:%d" % (seed, i), F.gen_sorter_case(rng, stats))
+    def oracle(self, res):
+        return F.oracle_sorter(res)
+    def keep_prefix(self, lines):
+        return 3
+    def tie_props(self, res, idx):
+        return {"C06"}
+    def nontrivial(self, pid, lines, res):
+        return any(r["req"].startswith("s.spills") and int(r["real"].split(" ")[1]) >= 2 for r in res if r["real"].startswith("spills"))
+
+FAMILIES["sorter"] = SorterFamily
+
+
+class FilesetFamily(Family):
+    name = "fileset"
+    def cases(self, pid, seed, tier, mult, stats):
+        for c in self.corpus(pid):
+            yield c
+        for i in range(budget(tier, 250, 4000, mult)):
+            rng = Rng(seed * 4000037 + i * 17)
+            yield ("fileset:%d:%d" % (seed, i), F.gen_fileset_case(rng, stats))
+    def oracle(self, res):
+        fails = F.oracle_fileset(res)
+        # the reload rules themselves: the Lean machine is their executable statement; a disagreement on what an
+        # iterator returns, on a NULL/ok result or a model-side `uaf` is a property failure, not merely a broken tie
+        for i, r in enumerate(res):
+            if r["model"] == "uaf" and r["real"] != "asan":
+                fails.append(("C07", "the model predicts a use-after-free here (reader or merger released while referenced); the run did not trap but the history is unsafe", i)); break
+        return fails
+    def keep_prefix(self, lines):
+        return 2
+    def tie_props(self, res, idx):
+        return {"C07"}
+    def nontrivial(self, pid, lines, res):
+        return sum(1 for l in lines if l.startswith("fs.set")) >= 2 and sum(1 for l in lines if l.startswith(("fs.now", "fs.reload"))) >= 1 and any(l.startswith("fs.dup") for l in lines)
+
+FAMILIES["fileset"] = FilesetFamily
